@@ -576,7 +576,7 @@ void checkOracles(const Desc& d, const Obs& o, RunResult& r) {
                 else if (ev.type == E_TEST_START && ev.test >= 0) {
                     const Group& T = d.groups[(size_t)testGroups[(size_t)ev.test]];
                     TcMsg m; m.name = "testStarted"; m.attrs.push_back(std::make_pair(Str("name"), Str(T.sarg(1)))); want.push_back(m);
-                    if (!ev.x) { TcMsg g; g.name = "testIgnored"; g.attrs.push_back(std::make_pair(Str("name"), Str(T.sarg(1)))); want.push_back(g); }
+                    if (T.arg(0) && !c.runIgnored) { TcMsg g; g.name = "testIgnored"; g.attrs.push_back(std::make_pair(Str("name"), Str(T.sarg(1)))); want.push_back(g); }
                 }
                 else if (ev.type == E_TEST_END && ev.test >= 0) { TcMsg m; m.name = "testFinished"; m.attrs.push_back(std::make_pair(Str("name"), Str(d.groups[(size_t)testGroups[(size_t)ev.test]].sarg(1)))); m.attrs.push_back(std::make_pair(Str("duration"), Str("*"))); want.push_back(m); }
                 else if (ev.type == E_FAILURE) {
@@ -683,7 +683,7 @@ void checkOracles(const Desc& d, const Obs& o, RunResult& r) {
                     if (!cc || *cc != wantClass) r.fail("C16", "value", sigOf("where", "testcase@classname"), sfmt("case %zu classname %s expected %s", k, cc ? Json::S(*cc).dump().c_str() : "-", Json::S(wantClass).dump().c_str()));
                     const XNode* fl = 0; const XNode* sk = 0;
                     for (size_t q = 0; q < cs->kids.size(); q++) { if (cs->kids[q]->name == "failure") fl = cs->kids[q]; else if (cs->kids[q]->name == "skipped") sk = cs->kids[q]; }
-                    bool ignoredNotRun = o.ev[evStart].x == 0;
+                    bool ignoredNotRun = T.arg(0) && !c.runIgnored;      // from the description, not from what the shell said at its start notification
                     if ((sk != 0) != (ignoredNotRun && !firstFail)) r.fail("C16", "markers", sigOf("what", "skipped"), sfmt("case %zu: skipped marker %d, ignored %d", k, sk != 0, (int)ignoredNotRun));
                     if ((fl != 0) != (firstFail != 0)) r.fail("C16", "markers", sigOf("what", "failure"), sfmt("case %zu (%s): failure element %d, test failed %d", k, T.sarg(1), fl != 0, firstFail != 0));
                     if (fl && firstFail) {
